@@ -35,6 +35,8 @@ pub enum Fault {
     Swap { part: usize, page: usize, part2: usize, page2: usize },
     /// Replace the page by what it contained `gen` writes earlier.
     Stale { part: usize, page: usize, gen: usize },
+    /// Two faults on two different pages (all pairs of page-granular faults: zeroed / stale pages).
+    Pair { a: Box<Fault>, b: Box<Fault> },
 }
 
 pub struct C03Prop;
@@ -189,11 +191,43 @@ fn faults_for(base: &Base, tier: Tier) -> Vec<Fault> {
             }
         }
     }
+    // Double faults, exhaustively over the page-granular menu: every pair of {zeroed live page, stale
+    // generation} on two different pages (quick: zeroed pages only).
+    let coarse: Vec<Fault> = v
+        .iter()
+        .filter(|f| match f {
+            Fault::Zero { .. } => true,
+            Fault::Stale { .. } => tier == Tier::Thorough,
+            _ => false,
+        })
+        .cloned()
+        .collect();
+    let at = |f: &Fault| match f {
+        Fault::Zero { part, page } | Fault::Stale { part, page, .. } => (*part, *page),
+        _ => (usize::MAX, usize::MAX),
+    };
+    for (i, a) in coarse.iter().enumerate() {
+        for b in coarse.iter().skip(i + 1) {
+            if at(a) != at(b) {
+                v.push(Fault::Pair { a: Box::new(a.clone()), b: Box::new(b.clone()) });
+            }
+        }
+    }
     v
 }
 
 fn apply_fault(base: &Base, f: &Fault) -> Image {
     let mut img = base.image.clone();
+    apply_to(base, &mut img, f);
+    img
+}
+
+fn apply_to(base: &Base, img: &mut Image, f: &Fault) {
+    if let Fault::Pair { a, b } = f {
+        apply_to(base, img, a);
+        apply_to(base, img, b);
+        return;
+    }
     match *f {
         Fault::Zero { part, page } => img.parts[part][page * PAGE..(page + 1) * PAGE].fill(0),
         Fault::Flip { part, page, bit } => img.parts[part][page * PAGE + bit / 8] ^= 1 << (bit % 8),
@@ -207,8 +241,8 @@ fn apply_fault(base: &Base, f: &Fault) -> Image {
             let g = &base.generations[&(part, page)][gen];
             img.parts[part][page * PAGE..page * PAGE + g.len()].copy_from_slice(g);
         }
+        Fault::Pair { .. } => unreachable!(),
     }
-    img
 }
 
 /// Reopen the faulted image and read everything; returns complaints.
@@ -309,10 +343,15 @@ fn sig(clause: &str, spec: &BaseSpec, f: &Fault) -> String {
         Fault::Flip { .. } => "flip",
         Fault::Swap { .. } => "swap",
         Fault::Stale { .. } => "stale",
+        Fault::Pair { .. } => "pair",
     };
-    let part0 = match f {
-        Fault::Zero { part, .. } | Fault::Flip { part, .. } | Fault::Swap { part, .. } | Fault::Stale { part, .. } => *part,
-    };
+    fn part_of(f: &Fault) -> usize {
+        match f {
+            Fault::Zero { part, .. } | Fault::Flip { part, .. } | Fault::Swap { part, .. } | Fault::Stale { part, .. } => *part,
+            Fault::Pair { a, .. } => part_of(a),
+        }
+    }
+    let part0 = part_of(f);
     let region = if spec.tombstone && part0 == 0 { "tombstone-log" } else { "block" };
     format!("{clause}|{kind}|{region}")
 }
